@@ -253,6 +253,11 @@ fn judge_during(sc: &Scenario, log: &[Ev], specs: &[Option<FiltSpec>], violation
             }
         }
     }
+    let attempts = log.iter().filter(|x| x.k == 255 && (x.kind == "global.ok" || x.kind == "global.err")).count();
+    let oks = log.iter().filter(|x| x.k == 255 && x.kind == "global.ok").count();
+    if attempts > 0 && oks != 1 {
+        violations.push(format!("{} of {} set_global_default calls returned Ok (expected exactly one)", oks, attempts));
+    }
     // per thread: replay its scope stack; judge each hit
     let nthreads = sc.threads.len() as i32;
     for t in 0..nthreads {
@@ -300,7 +305,9 @@ fn judge_during(sc: &Scenario, log: &[Ev], specs: &[Option<FiltSpec>], violation
                             // no scope: global default if installed before the emission started,
                             // global-or-nobody if its installation overlaps the emission
                             let g_before = log[..i].iter().find(|x| x.k == 255 && x.kind == "global.ok").map(|x| x.cs.parse::<u8>().unwrap());
-                            let g_during = log[..end].iter().find(|x| x.k == 255 && x.kind == "global.start").map(|x| x.cs.parse::<u8>().unwrap());
+                            // the (single) winner of set_global_default, if its call started before this emission ended
+                            let winner = log.iter().find(|x| x.k == 255 && x.kind == "global.ok").map(|x| x.cs.parse::<u8>().unwrap());
+                            let g_during = winner.filter(|g| log[..end].iter().any(|x| x.k == 255 && x.kind == "global.start" && x.cs == g.to_string()));
                             match (g_before, g_during) {
                                 (Some(g), _) => {
                                     let sp = specs[g as usize].unwrap();
